@@ -100,7 +100,9 @@ func Translate(outDir string) error {
 			if strings.HasPrefix(local, "v") && len(local) <= 3 { // .../v2
 				local = filepath.Base(filepath.Dir(p))
 			}
-			local = strings.TrimPrefix(local, "go-")
+			if strings.Contains(p, "github.com/iden3/go-merkletree-sql") {
+				local = "merkletree"
+			}
 			if im.Name != nil {
 				local = im.Name.Name
 			}
@@ -169,12 +171,8 @@ func Translate(outDir string) error {
 			continue
 		}
 		cnames = append(cnames, ty)
-		if want, ok := expectedCustom[ty]; !ok || want != sig {
-			// only types that can be reached from the extracted structs matter, but an
-			// unknown codec anywhere in the package is cheap to refuse.
-			if _, isWanted := expectedCustom[ty]; isWanted || t.reachable(ty) {
-				return fmt.Errorf("type %s has JSON methods %q; the model knows %q", ty, sig, expectedCustom[ty])
-			}
+		if _, ok := expectedCustom[ty]; !ok && t.reachable(ty) {
+			return fmt.Errorf("type %s has JSON methods %q and is used by an extracted struct: not modelled", ty, sig)
 		}
 	}
 	sort.Strings(cnames)
